@@ -126,7 +126,7 @@ func main() {
 			os.Exit(3)
 		}
 		defer d.Close()
-		impl := t.Exec(ops)
+		impl := core.ExecTimeout(t, ops)
 		model, err := d.Run(ops)
 		if err != nil {
 			fmt.Fprintln(os.Stderr, err)
